@@ -15,6 +15,23 @@ SIZES = {'C02': {'VERIF_RUNS': '30000'}, 'C03': {'VERIF_RUNS': '30000'}, 'C08': 
          'C16': {'VERIF_SCENARIOS': '240'}, 'C19': {'VERIF_RUNS': '1500'}}
 
 
+SNAP = [VERIF]
+
+
+def snapshot_code():
+    """Run the checks from a private copy of the framework (editing /verif during a long self-test
+    must not mix two versions of the code inside one comparison)."""
+    snap = tempfile.mkdtemp(prefix='athlib-verif-snap-')
+    for name in ('run_check.py', 'simkit', 'corpus', 'KNOWN_FINDINGS.txt'):
+        src = os.path.join(VERIF, name)
+        if os.path.isdir(src):
+            shutil.copytree(src, os.path.join(snap, name), ignore=shutil.ignore_patterns('__pycache__'))
+        elif os.path.exists(src):
+            shutil.copy(src, os.path.join(snap, name))
+    SNAP[0] = snap
+    return snap
+
+
 def run(chk, seed, workers, hashseed, out):
     env = dict(os.environ, VERIF_SEED=str(seed), VERIF_WORKERS=str(workers), VERIF_OUT=out, PYTHONDONTWRITEBYTECODE='1')
     env.update(SIZES[chk])
@@ -23,7 +40,7 @@ def run(chk, seed, workers, hashseed, out):
         env['VERIF_HASHSEED'] = str(hashseed)
     else:
         env.pop('VERIF_HASHSEED', None)
-    p = subprocess.run(['/venv/bin/python', os.path.join(VERIF, 'run_check.py'), chk, '--tier', 'quick'],
+    p = subprocess.run(['/venv/bin/python', os.path.join(SNAP[0], 'run_check.py'), chk, '--tier', 'quick'], cwd=SNAP[0],
                        env=env, capture_output=True, text=True, timeout=3600)
     ev = json.load(open(os.path.join(out, 'evidence', chk + '.json')))
     c = ev['coverage']
@@ -37,6 +54,10 @@ def main():
     checks = (a[a.index('--checks') + 1] if '--checks' in a else 'C02,C03,C08,C16,C19').split(',')
     rep = {}
     bad = 0
+    snap = snapshot_code()
+    rp = os.path.join(VERIF, 'selftest', 'determinism-report.json')
+    if os.path.exists(rp) and '--fresh' not in a:
+        rep = json.load(open(rp))
     for chk in checks:
         for seed in seeds:
             scratch = tempfile.mkdtemp(prefix='athlib-verif-det-')
@@ -48,8 +69,9 @@ def main():
             bad += not same
             rep['%s seed=%d' % (chk, seed)] = {'identical': same, 'runs': r}
             print('%s seed=%d identical=%s digest=%s evaluations=%d' % (chk, seed, same, r[0]['digest'], r[0]['evaluations']), flush=True)
+    shutil.rmtree(snap, ignore_errors=True)
     rep['when'] = time.strftime('%Y-%m-%d %H:%M:%S')
-    json.dump(rep, open(os.path.join(VERIF, 'selftest', 'determinism-report.json'), 'w'), indent=1, sort_keys=True)
+    json.dump(rep, open(rp, 'w'), indent=1, sort_keys=True)
     return 1 if bad else 0
 
 
